@@ -215,6 +215,10 @@ func CoerceToVector(arg Object, mods ...Object) (result Object) {
 		coerceNotPossible(ta, "vector")
 	}
 	if 0 < len(mods) {
+		if result == nil {
+			// The empty list as a vector of a given element type or length.
+			result = NewVector(0, TrueSymbol, nil, List{}, true)
+		}
 		vl := result.(VectorLike)
 		if mods[0] != starSym {
 			vl.SetElementType(mods[0])
